@@ -19,10 +19,10 @@ RULE = (
     "against exact repeated differences, split at every non-empty subset of {1/3, 1/2, 3/4} with piece_j(s) = segment(t_j + s dt) at "
     "p+1 rational s, box() against 65 exact points per segment; `point in segment`: 8 regular float segments per degree (x monotone, "
     "no cusps/loops), segment(k/32) must be `in`, points at normal offsets +-1e-4, +-1e-2 must not; winding_number(segment, centre) "
-    "against the exactly subdivided subtended angle for a 9x9 grid of centres; after all these queries the SAME object is "
+    "`point in segment` with ALL-RATIONAL data: 4 straight segments per degree (degree-elevated lines: short, long, generic, vertical) at 57 parameters (k/12, a/b +- 1e-5 and 1e-7 for b <= 5, large-denominator parameters), normal offsets must not; winding against the exactly subdivided subtended angle for a 9x9 grid of centres; after all these queries the SAME object is "
     "inverted in place and evaluation / derivatives / split / point-on-curve / area are asked again against the reversed polygon; finally the degrees are visited in the order 1,2,3,4,5,6,5,4,3,2,1,4,2,6,1,3,5 in ONE process (memo tables keyed by degree). non-trivial = all; distinct = (degree, polygon, query)."
 )
-ASSUMPTIONS = ["rational Newton projections (`in` on Fraction segments of degree >= 3) are excluded: minutes per query in exact arithmetic"]
+ASSUMPTIONS = ["rational Newton projections on CURVED Fraction segments (degree >= 2) are excluded: 20-300 s per query in exact arithmetic on the unchanged tree; rational straight segments of every degree are included"]
 CASE_TIMEOUT = 1500
 
 
@@ -62,6 +62,36 @@ def regular_segments(p):
     out = []
     for i, y in enumerate(ys):
         out.append(("reg%d" % i, [(2.0 * k / p, y[k]) for k in range(p + 1)]))
+    return out
+
+
+def rational_lines(p):
+    """Straight all-rational segments of degree p (a line degree-elevated p-1 times)."""
+    out = []
+    for nm, a, b in (("short", (F(0), F(0)), (F(1), F(1, 2))), ("long", (F(0), F(0)), (F(300), F(-700))), ("generic", (F(1, 7), F(2, 3)), (F(22, 7), F(-5, 3))), ("vertical", (F(2), F(-1)), (F(2), F(40)))):
+        c = [a, b]
+        while len(c) - 1 < p:
+            n = len(c) - 1
+            c = [c[0]] + [tuple(F(i, n + 1) * c[i - 1][k] + (1 - F(i, n + 1)) * c[i][k] for k in (0, 1)) for i in range(1, n + 1)] + [c[-1]]
+        out.append(("ratline-" + nm, c))
+    return out
+
+
+RATIONAL_PARAMS = sorted(
+    set(
+        [F(k, 12) for k in range(13)]
+        + [F(a, b) + s * F(1, 10**e) for b in (2, 3, 4, 5) for a in range(1, b) for s in (1, -1) for e in (5, 7)]
+        + [F(2469, 19753), F(20001, 40000), F(12345, 99991), F(99989, 99991), F(1, 10**6), 1 - F(1, 10**6), F(314159, 10**6), F(271828, 10**6)]
+    )
+)
+
+
+def scaled_segments(p):
+    """Two of the regular segments in other units of length: 1/16384 and 1024 (exact in floats)."""
+    out = []
+    for name, ctrl in regular_segments(p)[:2]:
+        for nm, f in (("small", 1.0 / 16384), ("large", 1024.0)):
+            out.append(("%s-%s" % (name, nm), [(x * f + 3 * f, y * f - f) for x, y in ctrl]))
     return out
 
 
@@ -238,8 +268,32 @@ def _run_degree(spec):
             st, pieces = call_limited(lambda: seg.split((F(1, 3),)), 30)
             if st != "ok" or len(pieces) != 2 or any(abs(rg.ex(pieces[1](F(1, 2))[i]) - rg.bez_eval(rref, F(2, 3))[i]) > tol for i in (0, 1)):
                 fail(name, "invert-split", "after invert(), split(1/3) does not retrace the reversed segment")
+    # point on curve, all-rational data: straight segments of degree p (degree-elevated lines;
+    # the Newton projection stays rational and cheap there) at parameters with small AND large
+    # denominators, near and far from low-order fractions, short and long segments
+    for name, ctrl in ([] if quick_only else rational_lines(p)):
+        seg = lib.PlanarCurve([tuple(q) for q in ctrl])
+        nontrivial.append((p, name))
+        for t in RATIONAL_PARAMS:
+            q = rg.bez_eval(ctrl, t)
+            st, v = call_limited(lambda: q in seg, 60)
+            evals += 1
+            if st != "ok" or v is not True:
+                fail(name, "on-curve-rational", "segment(%s) = %s is not `in` the rational segment (%s)" % (t, q, v if st == "ok" else st))
+                break
+            hist["on-curve-rational"] = hist.get("on-curve-rational", 0) + 1
+        dx, dy = ctrl[-1][0] - ctrl[0][0], ctrl[-1][1] - ctrl[0][1]
+        for t in RATIONAL_PARAMS[::5]:
+            q = rg.bez_eval(ctrl, t)
+            for off in (F(1, 10**4), F(-1, 100)):
+                o = (q[0] - off * dy / max(abs(dx), abs(dy)), q[1] + off * dx / max(abs(dx), abs(dy)))
+                st, v = call_limited(lambda: o in seg, 60)
+                evals += 1
+                if st != "ok" or v is not False:
+                    fail(name, "off-curve-rational", "rational point at normal offset %s from segment(%s) is reported `in` the segment (%s)" % (off, t, v if st == "ok" else st))
+                    break
     # point on curve and winding for regular float segments
-    for name, ctrl in (regular_segments(p)[:1] if quick_only else regular_segments(p) + overshoot_segments(p)):
+    for name, ctrl in (regular_segments(p)[:1] if quick_only else regular_segments(p) + overshoot_segments(p) + scaled_segments(p)):
         seg = lib.PlanarCurve(ctrl)
         ref = [(rg.ex(x), rg.ex(y)) for x, y in ctrl]
         d1 = rg.bez_deriv(ref)
